@@ -225,6 +225,20 @@ func VerifC08DecodeAnyBytes() {
 	verifReach("end")
 }
 
+// VerifC08DecodeBeforeUpdate: a dynamic codec that has not received a channel set yet (the state of a websocket
+// connection's codec until its open message has been decoded, or after that message was refused) is handed an
+// arbitrary message by the peer: Decode returns an error, it does not panic.
+func VerifC08DecodeBeforeUpdate() {
+	n := verifLen("len", 0, verifParam("len", 4))
+	b := verifBytes("b", n)
+	c := NewDynamic(nil)
+	var derr error
+	panicked := verifPanics(func() { _, derr = c.Decode(b) })
+	verifAssert("decode-before-update-never-panics", !panicked)
+	verifAssert("decode-before-update-returns-an-error", panicked || derr != nil)
+	verifReach("end")
+}
+
 // VerifC08RepeatedKeysOrder: many series of one channel with identical alignment keep their frame order through
 // the round trip (the sort must be stable in effect; Go's sort.Sort switches algorithm above 12 elements).
 func VerifC08RepeatedKeysOrder() {
